@@ -119,9 +119,12 @@ def gen_order_case(rnd):
     big = [b"fill:1|c"] * n + [g + b":100|g"]
     small = [g + rnd.choice([b":+1|g", b":-7|g", b":5|g"])]
     third = [g + b":+2|g", b"fill:1|c"]
-    model_ops = [GM.load_op((None, []))] + [PE.I(l) for l in big + small + third] + ["G"]
-    e2e_ops = [GM.load_op((None, [])), "P " + vf.hexs(b"\n".join(big)), "P " + vf.hexs(b"\n".join(small)), "P " + vf.hexs(b"\n".join(third)), "G"]
-    return 15, ("none", 0), rnd.choice(["udp", "udp", "udp", "unixgram", "tcp"]), model_ops, [(None, [])], False, e2e_ops
+    transport = rnd.choice(["udp", "udp", "udp", "unixgram", "tcp", "unixgram@"])
+    # on the datagram transports a datagram WITHOUT payload comes in between: one empty line, and the listener goes on
+    empty = transport != "tcp" and rnd.random() < 0.6
+    model_ops = [GM.load_op((None, []))] + [PE.I(l) for l in big + small] + ([PE.I(b"")] if empty else []) + [PE.I(l) for l in third] + ["G"]
+    e2e_ops = [GM.load_op((None, [])), "P " + vf.hexs(b"\n".join(big)), "P " + vf.hexs(b"\n".join(small))] + (["P -"] if empty else []) + ["P " + vf.hexs(b"\n".join(third)), "G"]
+    return 15, ("none", 0), transport, model_ops, [(None, [])], False, e2e_ops
 
 
 def gen_longrun_case(rnd):
@@ -181,7 +184,7 @@ def have_ipv6():
 def gen_big_datagram_case(rnd):
     """one datagram at the size limits: 65507 bytes (the largest UDP/IPv4 payload) over UDP or unixgram, 65508-65535 bytes over
     unixgram only; every line of it must be parsed exactly once"""
-    transport = rnd.choice(["udp", "unixgram", "unixgram"] + (["udp6", "udp6"] if have_ipv6() else []))
+    transport = rnd.choice(["udp", "unixgram", "unixgram@"] + (["udp6", "udp6"] if have_ipv6() else []))
     # the largest payloads: 65507 over UDP/IPv4, 65527 over UDP/IPv6, 65535 over unixgram
     size = 65507 if transport == "udp" else rnd.choice([65507, 65508, 65512, 65527]) if transport == "udp6" else rnd.choice([65507, 65508, 65520, 65535])
     lines = []
